@@ -240,6 +240,29 @@ def main():
                 core.read_data_page_v2(io.BytesIO(page), helper, col_se, h2, md, Ident(), assign, 0, bool(c.get("use_cat")), 0, ph,
                                        selfmade=bool(c.get("selfmade")))
             return ["ok", [None if (x != x) else int(x) for x in assign], None, str(assign.dtype), spy.calls]
+        if fn == "page_delta":
+            # the Python callers of delta_binary_unpack: core.read_data_page / read_data_page_v2 on a DELTA_BINARY_PACKED page
+            import io
+            from fastparquet import parquet_thrift as pt, schema, core
+            typ = pt.Type.INT64 if c["longval"] else pt.Type.INT32
+            root_se = pt.SchemaElement(name="schema", num_children=1)
+            col_se = pt.SchemaElement(name="c", type=typ, repetition_type=pt.FieldRepetitionType.REQUIRED)
+            helper = schema.SchemaHelper([root_se, col_se])
+            page = bytes.fromhex(c["inp"])
+            md = pt.ColumnMetaData(type=typ, path_in_schema=["c"], codec=0, num_values=c["n"], encodings=[5],
+                                   total_uncompressed_size=len(page), total_compressed_size=len(page), data_page_offset=0)
+            if c["version"] == 1:
+                daph = pt.DataPageHeader(num_values=c["n"], encoding=pt.Encoding.DELTA_BINARY_PACKED,
+                                         definition_level_encoding=pt.Encoding.RLE, repetition_level_encoding=pt.Encoding.RLE)
+                header = pt.PageHeader(type=0, uncompressed_page_size=len(page), compressed_page_size=len(page), data_page_header=daph)
+                defi, rep, values = core.read_data_page(io.BytesIO(page), helper, header, md, selfmade=False)
+                return ["ok", [int(x) for x in np.asarray(values)], str(np.asarray(values).dtype)]
+            h2 = pt.DataPageHeaderV2(num_values=c["n"], num_nulls=0, num_rows=c["n"], encoding=pt.Encoding.DELTA_BINARY_PACKED,
+                                     definition_levels_byte_length=0, repetition_levels_byte_length=0, is_compressed=False)
+            ph = pt.PageHeader(type=3, uncompressed_page_size=len(page), compressed_page_size=len(page), data_page_header_v2=h2)
+            assign = np.full(c["n"], -7, dtype=c["adt"])
+            core.read_data_page_v2(io.BytesIO(page), helper, col_se, h2, md, None, assign, 0, False, 0, ph)
+            return ["ok", [int(x) for x in assign], str(assign.dtype)]
         if fn == "numpyio":
             # a small script of NumpyIO operations
             buf = outbuf(c["cap"])
